@@ -410,7 +410,10 @@ def execute(script):
                 blk = W.roundtrip(W.mine_honest(W.view_at(sim.cs, rb.id), txs, W.key(op.get('miner', 0) % 12), ts))
                 c = w.conn(op.get('peer', 0))
                 if c is not None and rules.block_id(blk) not in chain.blocks:
-                    c.send(M.DataMessage(M.DATA_BLOCK, blk), in_response_to=(0 if op.get('route', 'relay') == 'relay' else 9))
+                    if op.get('route', 'relay') == 'relay':
+                        c.send(M.DataMessage(M.DATA_BLOCK, blk))
+                    else:
+                        c.offer_block(blk)          # bulk-download route: announce, be asked, serve
                     if op.get('ahead'):
                         # processed within the same virtual second: the head stays ahead of the clock
                         w.k.run(w.k.now + 700)
